@@ -400,7 +400,19 @@ class Gen:
         r = self.r
         ls, bs = v.listings(), v.buckets()
         k = r.choice(["wrong_owner_l", "wrong_owner_b", "bad_id", "bad_funds", "funds_on_nondeposit", "bad_wl", "bad_ask",
-                      "hostile_hook", "garbage_hook", "bad_send", "bad_finalize", "reuse_id", "bad_reg", "user_hook", "double"])
+                      "hostile_hook", "garbage_hook", "bad_send", "bad_finalize", "reuse_id", "bad_reg", "user_hook", "double",
+                      "owner_misuse", "owner_misuse"])
+        if k == "owner_misuse" and ls:
+            # the record's *own* owner sends a message kind that does not fit its lifecycle state
+            l = r.choice(ls)
+            u, lid = l["kowner"], int(l["kid"])
+            if u not in TRADERS:
+                return None
+            m = r.choice([{"k": "change_ask", "id": lid, "ask": self.random_ask(v, u)}, {"k": "add_to_listing", "id": lid},
+                          {"k": "finalize", "id": lid, "secs": r.choice(LIFETIMES)}, {"k": "delete_listing", "id": lid},
+                          {"k": "withdraw_purchased", "id": lid}])
+            funds = [[r.choice(self.denoms), self.amount()]] if m["k"] == "add_to_listing" else []
+            return [(E(u, m, funds), "malformed")]
         if k == "wrong_owner_l" and ls:
             l = r.choice(ls)
             u = self.trader(exclude=[l["kowner"]])
